@@ -10,7 +10,7 @@ def decode(string):
   return unsafe_decode(string)
 
 def validate_encoded(string):
-  if not re.match(r"^(\*|(([0-9]+[MIDNSHPX=])+))(,(\*|(([0-9]+[MIDNSHPX=])+)))*$", string):
+  if not re.match(r"^(\*|(([0-9]+[MIDNSHPX=])+))(,(\*|(([0-9]+[MIDNSHPX=])+)))*\Z", string):
      raise gfapy.FormatError(
        "{} is not a comma separated list of * or CIGARs\n".format(repr(string))+
        "(CIGAR strings must match ([0-9]+[MIDNSHPX=])+)")
